@@ -331,6 +331,11 @@ package native
 //@ may-panic
 //@ opt frame off
 //@ requires p != nil && ic != nil && ic.DAO != nil
+// by the time the change is announced the layer's cache holds the record just stored - whether the
+// method was whitelisted before or not (the cache is what WhitelistedFee charges from; a restarted
+// node rebuilds it from storage)
+// (stated for the case the fix is about - the method was whitelisted already; the new-entry case rests on slices.Insert)
+//@ call BytesBE requires[cached] ok ==> 0 <= i && i < len(cache.whitelistedContracts) && cache.whitelistedContracts[i].Fee == fee
 
 // ---- (C04) the oracle service is handed only requests that are in the contract's storage after
 // the block: a request created by a transaction that failed later is in newRequests but not in
